@@ -158,6 +158,10 @@ func (w *World) BuildScript(ob *Obligation, forCVC5 bool) string {
 		}
 		fmt.Fprintf(&sb, "(assert (forall ((b Ref)) (! (and (= (addrtag (%s b)) %d) (= (addrbase (%s b)) b) (= (born (%s b)) (born b))) :pattern ((%s b)))))\n", sym, w.fldTags[sym], sym, sym, sym)
 	}
+	// an address (tag != 0) is a field or element of its base object and is as old as that object
+	if used["addrbase"] && used["born"] {
+		sb.WriteString("(assert (forall ((x Ref)) (! (=> (not (= (addrtag x) 0)) (= (born x) (born (addrbase x)))) :pattern ((addrbase x)))))\n")
+	}
 	// element addresses: injective in (base, index), disjoint from field addresses and from allocated objects
 	if used["elemref"] {
 		sb.WriteString("(declare-fun elemidx (Ref) Int)\n(assert (forall ((b Ref) (i Int)) (! (and (= (addrtag (elemref b i)) (- 1)) (= (addrbase (elemref b i)) b) (= (elemidx (elemref b i)) i) (= (born (elemref b i)) (born b))) :pattern ((elemref b i)))))\n")
@@ -365,19 +369,37 @@ func (w *World) Solve(ob *Obligation, cfg *SolveConfig, idx int) {
 			// ordinary infeasible path; anything else: a vacuity problem of the model
 			lo, hi := 0, len(ob.Assume) // invariant: prefix[:lo] not unsat, prefix[:hi] unsat
 			full := ob.Assume
+			inconclusive := false
 			for hi-lo > 1 {
 				mid := (lo + hi) / 2
 				ob.Assume = full[:mid]
-				r := runSolver(solvers[0], w.BuildScript(ob, false), 3, false, cfg.Dir, tag+"v")
-				if r.answer == "unsat" {
+				scr := w.BuildScript(ob, false)
+				r := runSolver(solvers[0], scr, 3, false, cfg.Dir, tag+"v")
+				for k, sv := range solvers {
+					if r.answer == "sat" || r.answer == "unsat" || k >= 2 {
+						break
+					}
+					// a timeout here would shift the blame to a later assumption: ask again, longer
+					r = runSolver(sv, scr, 10, false, cfg.Dir, tag+"v")
+				}
+				switch r.answer {
+				case "unsat":
 					hi = mid
-				} else {
+				case "sat":
+					lo = mid
+				default:
+					inconclusive = true
 					lo = mid
 				}
 			}
 			ob.Assume = full
 			culprit := hi - 1
-			if culprit >= 0 && ob.branchIdx[culprit] {
+			if inconclusive && !(culprit >= 0 && ob.branchIdx[culprit]) {
+				// the search could not be decided: no verdict on vacuity, and no alarm
+				ob.Result = "discharged"
+				ob.Solver = "path cover inconclusive (blame search timed out)"
+				w.Note("vacuity: path cover of " + ob.Func + " inconclusive (blame search timed out)")
+			} else if culprit >= 0 && ob.branchIdx[culprit] {
 				ob.Result = "discharged"
 				ob.Solver = "infeasible path (branch condition)"
 			} else if culprit >= 0 {
